@@ -50,6 +50,31 @@ f0 = func() { return 1 }
 f1 = func(x) { return x }
 f5 = func(a, b, c, d, e) { return a }
 fv = func(x...) { return len(x) }
+tm["b"] = 2
+nq = make([]*string, 1)[0]
+pq = new(string)
+ps = make([]*string, 2)
+sp = make(struct{P *int64, Q *string})
+pmi = make(map[string]*int64)
+pms = make(map[string]*string)
+pms["a"] = pq
+pms["b"] = nq
+ppi = new(*int64)
+pps = new(*string)
+cpi = make(chan *int64, 4)
+cps = make(chan *string, 4)
+nan = 0.0 / 0.0
+pinf = 1.0 / 0.0
+ninf = -1.0 / 0.0
+nz = -0.0
+fm = {}
+fm[nan] = 1
+fm[pinf] = 2
+fm[nz] = 3
+tfm = make(map[float64]int64)
+tfm[nan] = 1
+tfm[0.0 / 0.0] = 2
+tfm[ninf] = 3
 ll = [[1, 2]]
 lm = [{"k": 1}]
 lf = [f1]
@@ -139,6 +164,20 @@ func newEnv() (*env.Env, error) {
 	e.Define("g3", func(a, b, c int64) int64 { return a + b + c })
 	e.Define("gv", func(a ...interface{}) int64 { return int64(len(a)) })
 	e.Define("gp", func(a ...interface{}) { panic("boom") })
+	e.Define("gq", func(p *string) int64 {
+		if p == nil {
+			return 0
+		}
+		return int64(len(*p))
+	})
+	e.Define("gr", func(p *int64) int64 {
+		if p == nil {
+			return 0
+		}
+		return *p
+	})
+	e.Define("gq2", func(p *string, q *int64) int64 { return 2 })
+	e.Define("gqv", func(p ...*string) int64 { return int64(len(p)) })
 	e.Define("ge", func(a int64) (int64, error) {
 		if a < 0 {
 			return 0, errNeg
